@@ -1,5 +1,3 @@
-mod c13;
-mod c23;
 mod c28;
 mod c29;
 
@@ -9,8 +7,6 @@ fn main() {
     vcore::quiet_panics();
     let ctx = vcore::Ctx::new(&id, &args[1.min(args.len())..]);
     match id.as_str() {
-        "C13" => c13::run(&ctx),
-        "C23" => c23::run(&ctx),
         "C28" => c28::run(&ctx),
         "C29" => c29::run(&ctx),
         _ => {
